@@ -5,7 +5,10 @@
        makes the specification accept: non-final sequence / tx version 2 / the implementation's
        own signature-parsing verdicts);
    (2) completeness: a library satisfaction of a sane descriptor that the specification accepts
-       must be accepted by the interpreter;
+       must be accepted by the interpreter; and (interp_complete against the Script semantics) so
+       must a MUTATED spend the specification accepts whose script the context's decoder accepts --
+       else a false reject; scripts outside the context's language (IMSX) are counted, and the
+       model is run on them to reproduce interp_complete_base_selector_refuted;
    (3) exactness: for accepted spends, the reported constraints must equal the checks of the
        executed path (extracted exec_tr + checks on the real script bytes);
    (4) the lifted-policy verdict computed by the harness on the reported set;
@@ -66,6 +69,7 @@ type spend = {
   mutable isign : (bytes * bytes) list;
   mutable tapok : bool;
   mutable ims : string option;
+  mutable imsx : string option;   (* script outside the context's language, decoded with the restrictions lifted *)
   mutable verdict : string; mutable cons : string list;
   mutable policy : string;
 }
@@ -402,38 +406,48 @@ let handle_spend (c : case) (s : spend) =
   let oracle_ok = verify_spend_ext e commit c.spk s.ssig s.wit in
   bump ("oracle/" ^ (if oracle_ok then "accept" else "reject") ^ "/impl/" ^ (if impl_ok then "accept" else "reject"));
   if impl_ok && oracle_ok then inc "both_accept";
-  if (not impl_ok) && oracle_ok && s.base = "mut" then inc "impl_stricter";
-  if impl_ok && not oracle_ok then begin
-    inc "false_accept";
-    (* classification: the smallest counterfactual under which the specification accepts *)
-    let itab = s.sigok @ s.isigx in
-    let try_ (fs, fv, fg) =
-      let seq = if fs && s.seq = 0xffffffff then 0xfffffffe else s.seq in
-      let txv = if fv && s.txv < 2 then 2 else s.txv in
-      let tab = if fg then itab else s.sigok in
-      verify_spend_ext (mk_env c s ~seq ~txv tab) commit c.spk s.ssig s.wit in
-    let combos = [ ((true, false, false), "after-final-sequence");
-                   ((false, true, false), "older-tx-version-1");
-                   ((false, false, true), "sig-parse-laxity");
-                   ((true, true, false), "after-final-sequence+older-tx-version-1");
-                   ((true, false, true), "after-final-sequence+sig-parse-laxity");
-                   ((false, true, true), "older-tx-version-1+sig-parse-laxity");
-                   ((true, true, true), "after-final-sequence+older-tx-version-1+sig-parse-laxity") ] in
-    let applicable (fs, fv, fg) =
-      (not fs || s.seq = 0xffffffff) && (not fv || s.txv < 2) && (not fg || s.isigx <> []) in
-    let cause =
-      match List.find_opt (fun (f, _) -> applicable f && try_ f) combos with
-      | Some (_, name) -> name
-      | None ->
-        let k = mk_class s.mk in
-        let contains (sub : string) (str : string) =
-          let n = String.length sub and m = String.length str in
-          let rec go i = i + n <= m && (String.sub str i n = sub || go (i + 1)) in go 0 in
-        let script_is_01 = (match inner c s with Some (_, sc, _) -> sc = [byte_tab.(1)] | None -> false) in
-        if script_is_01 then "script-elem-01-as-op1"
-        else if contains "noncanon" s.mk then "noncanonical-script-reencoded"
-        else "unexplained:" ^ c.kind ^ ":" ^ k in
-    Printf.printf "BAD false-accept cause=%s %s cons=%s\n" cause (describe c s) (String.concat "," s.cons)
+  (* a MUTATED spend the specification accepts and the interpreter rejects.  coq: interp_complete says
+     there is none for a script of the interpreter's language (decode_consensus in the output's context
+     succeeds; that context forbids or_i and d: before segwit, which is the hypothesis [isel]).
+     - the script decodes in its context: a false reject (violation).  Cause by counterfactual: SvBase
+       and SvWitnessV0 differ in Script/Exec.v only by MINIMALIF; if the same script on the same stack
+       fails once MINIMALIF is on, the acceptance hinges on a non-minimal IF selector.
+     - the script is a miniscript only with the context's restrictions lifted (IMSX): out of the
+       language, from_txdata refuses it whatever the stack -- not a violation; the model is run on the
+       permissively decoded miniscript to reproduce coq's interp_complete_base_selector_refuted on
+       real script bytes and real signatures (counter refutation_reproduced). *)
+  if (not impl_ok) && oracle_ok && s.base = "mut" then begin
+    inc "impl_stricter";
+    let minimalif_sensitive () =
+      match inner c s with
+      | Some (SvBase, sc, st) ->
+        (match parse_script sc with
+         | Some scr -> accepts_tr (with_sv e SvBase) scr st <> None && accepts_tr (with_sv e SvWitnessV0) scr st = None
+         | None -> false)
+      | _ -> false in
+    let from_decode = (s.verdict = "err:from:decode") in
+    match s.imsx with
+    | Some d when from_decode ->
+      inc "out_of_language";
+      bump ("lang/" ^ c.kind ^ "/" ^ mk_class s.mk);
+      let m = (try model_run c { s with ims = Some d } with _ -> None) in
+      (match m with
+       | Some o ->
+         let is_pref p = String.length o >= String.length p && String.sub o 0 (String.length p) = p in
+         if is_pref "err:iter:elem_push" && minimalif_sensitive () then inc "refutation_reproduced"
+         else if is_pref "ok" then inc "out_of_language_model_accepts"
+         else begin
+           inc "out_of_language_model_other";
+           Printf.printf "BAD false-reject cause=unexplained-reject:%s:%s verdict=%s model=%s %s\n"
+             c.kind (mk_class s.mk) s.verdict (String.concat "_" (split o)) (describe c s)
+         end
+       | None -> inc "out_of_language_model_na")
+    | _ ->
+      let cause =
+        if minimalif_sensitive () then "base-sigversion-nonminimal-selector"
+        else "unexplained-reject:" ^ c.kind ^ ":" ^ mk_class s.mk in
+      inc "false_reject";
+      Printf.printf "BAD false-reject cause=%s verdict=%s %s\n" cause s.verdict (describe c s)
   end;
   (* (2) completeness *)
   if s.base = "lib" && c.sane then begin
@@ -520,7 +534,7 @@ let () =
          let g = kv rest in
          sp := Some { sid; base = g "base"; mk = g "mk"; txv = int_of_string (g "txv"); lock = int_of_string (g "lock");
                       seq = int_of_string (g "seq"); ssig = []; wit = []; hashes = []; sigok = []; isigx = []; isign = [];
-                      tapok = true; ims = None; verdict = "?"; cons = []; policy = "-" }
+                      tapok = true; ims = None; imsx = None; verdict = "?"; cons = []; policy = "-" }
        | "SS" :: s :: _ -> ups (fun x -> x.ssig <- bytes_of_hex s)
        | "WI" :: _ :: items -> ups (fun x -> x.wit <- List.map bytes_of_hex items)
        | "HASH" :: kind :: i :: o :: _ ->
@@ -537,6 +551,7 @@ let () =
        | "ISIGN" :: k :: s :: _ -> ups (fun x -> x.isign <- pairs_of k s :: x.isign)
        | "TAPOK" :: v :: _ -> ups (fun x -> x.tapok <- (v = "1"))
        | "IMS" :: rest -> ups (fun x -> x.ims <- Some (String.concat " " rest))
+       | "IMSX" :: rest -> ups (fun x -> x.imsx <- Some (String.concat " " rest))
        | "IMPL" :: v :: _ :: cons -> ups (fun x -> x.verdict <- v; x.cons <- cons)
        | "POLICY" :: v :: _ -> ups (fun x -> x.policy <- v)
        | "ENDSP" :: _ ->
@@ -553,7 +568,8 @@ let () =
    with End_of_file -> ());
   Printf.printf "SUMMARY cases=%d" !ncases;
   List.iter (fun k -> Printf.printf " %s=%d" k (get k))
-    ["spends"; "both_accept"; "false_accept"; "impl_stricter"; "lib_sane"; "lib_sane_valid"; "incomplete";
+    ["spends"; "both_accept"; "false_accept"; "impl_stricter"; "false_reject"; "out_of_language"; "refutation_reproduced";
+     "out_of_language_model_accepts"; "out_of_language_model_other"; "out_of_language_model_na"; "lib_sane"; "lib_sane_valid"; "incomplete";
      "constraints_checked"; "constraints_bad"; "constraints_no_trace"; "policy_ok"; "policy_bad";
      "model_eq"; "model_diff"; "model_na"; "panic"; "driver_exn"];
   print_newline ();
